@@ -737,6 +737,13 @@ impl Ctx {
         for (i, a) in self.m.iter().enumerate() {
             if a.alive {
                 self.actor_ops(i, a, false, &mut v);
+                // a second source over the descriptor of a *disabled* fd source: enabling the
+                // first one again must then fail (EEXIST) without touching the newcomer
+                if c.top_dup && !a.enabled && matches!(a.spec, KindSpec::Fd { .. }) && self.m.len() < c.max_actors && self.rt[i].efd.is_some()
+                    && !self.m.iter().enumerate().any(|(k, b)| b.alive && k != i && self.rt[k].efd.as_ref().map(|e| e.as_raw_fd()) == self.rt[i].efd.as_ref().map(|e| e.as_raw_fd()))
+                {
+                    v.push(Op::InsertSameFd(i));
+                }
             } else {
                 if c.top_stale && self.rt[i].token.is_some() {
                     for k in 0..4 {
@@ -1470,7 +1477,20 @@ impl Ctx {
             Op::Enable(j) => {
                 let tok = self.rt[j].token.expect("token");
                 let r = self.h.enable(&tok);
-                if let Err(e) = r {
+                let my_fd = self.rt[j].efd.as_ref().map(|e| e.as_raw_fd());
+                let dup = my_fd.is_some()
+                    && matches!(self.m[j].spec, KindSpec::Fd { .. })
+                    && self.m.iter().enumerate().any(|(k, b)| b.alive && b.enabled && k != j && self.rt[k].efd.as_ref().map(|e| e.as_raw_fd()) == my_fd);
+                if dup {
+                    // the descriptor is registered by another source meanwhile: this enable() has
+                    // to fail and to leave that other source alone (its kernel entry is compared
+                    // by the step check that follows)
+                    self.clause("duplicate-fd");
+                    self.dup_fault_seen = true;
+                    if r.is_ok() {
+                        self.violate(&["C15", "C16"], "duplicate-fd-accepted", &[], format!("enable of actor {j} succeeded although its fd is registered by another source"));
+                    }
+                } else if let Err(e) = r {
                     self.violate(
                         &["C07", "C08", "C15"],
                         "enable-failed",
